@@ -291,6 +291,33 @@ func r08b(c *core.Ctx) {
 			if strings.Contains(core.Expr(fs.Val), "cfg.MaximumTTL") && strings.Contains(core.Expr(fs.Val), "1000000000") {
 				okCfg = true
 			}
+			// computed in a local first: phi(6h | configured) with the 6h edge taken exactly when configured <= 0
+			if phi, isPhi := fs.Val.(*ssa.Phi); isPhi && len(phi.Edges) == 2 {
+				for i := 0; i < 2; i++ {
+					k, isC := core.ConstInt(phi.Edges[i])
+					cfgV := phi.Edges[1-i]
+					if !isC || k != 6*3600*1000000000 || !strings.Contains(core.Expr(cfgV), "cfg.MaximumTTL") || !strings.Contains(core.Expr(cfgV), "1000000000") {
+						continue
+					}
+					okCfg = true
+					pred := phi.Block().Preds[i]
+					conds := core.CondsAt(pred)
+					if iff, isIf := pred.Instrs[len(pred.Instrs)-1].(*ssa.If); isIf && pred.Succs[0] != pred.Succs[1] {
+						conds = append(conds, struct {
+							Cond ssa.Value
+							Val  bool
+						}{iff.Cond, pred.Succs[0] == phi.Block()})
+					}
+					for _, cnd := range conds {
+						// configured <= 0  ==  !(0 < configured)
+						if cm, ok := core.CmpOf(cnd.Cond); ok && cm.Op == "<" && cm.YV == cfgV && cnd.Val == cm.Neg {
+							if z, isZ := core.ConstInt(cm.XV); isZ && z == 0 {
+								okDef = true
+							}
+						}
+					}
+				}
+			}
 		}
 		c.Check(okDef, "max-ttl-default", ic.Pos(), ic, "maximumTtl defaults to 6h when the configured value is <= 0", "")
 		c.Check(okCfg, "max-ttl-config", ic.Pos(), ic, "maximumTtl is the configured maximum_ttl in seconds", "")
